@@ -1,7 +1,7 @@
 ------------------------------ MODULE TypeMon ------------------------------
 (* Monitor for C06: every value found in a numeric variable, array element or   *)
 (* parameter of the running interpreter is a value of the variable's type.      *)
-(* It constrains only what the property says (the value, not the variant tag).   *)
+(* It constrains the value and the type the machine computes with (the tag).      *)
 (* Record: [id, q (declared type of the variable), tag, whole, finite, fits32, v,  *)
 (*          sx (the value is exactly representable as a SINGLE)]                    *)
 EXTENDS Values, Json, IOUtils, TLC
@@ -13,12 +13,18 @@ Init == idx \in 1..Len(Recs)
 Next == UNCHANGED idx
 Spec == Init /\ [][Next]_idx
 
+\* The tag of the stored variant is the TYPE of the value for every operator of this machine (the result type of an
+\* operation is computed from the tags of its operands - Values.ResType, validated instruction by instruction by
+\* Trace_VM): a DOUBLE variable that holds VInteger(1) divides in SINGLE precision (x# / 3 = .33333334) and overflows
+\* in the LONG range (x# * x# * x#).  "Storing a value of another numeric type converts it": the tag must be the
+\* variable's own.
 OfType(r) ==
-  CASE r.q = "I" -> r.whole /\ r.fits32 /\ InRange("I", r.v)
-    [] r.q = "L" -> r.whole /\ r.fits32 /\ InRange("L", r.v)
-    [] r.q = "S" -> r.finite /\ r.sx          \* a SINGLE variable holds a SINGLE value, not a wider one
-    [] r.q = "D" -> r.finite
-    [] OTHER -> TRUE
+  /\ r.tag = r.q
+  /\ CASE r.q = "I" -> r.whole /\ r.fits32 /\ InRange("I", r.v)
+        [] r.q = "L" -> r.whole /\ r.fits32 /\ InRange("L", r.v)
+        [] r.q = "S" -> r.finite /\ r.sx          \* a SINGLE variable holds a SINGLE value, not a wider one
+        [] r.q = "D" -> r.finite
+        [] OTHER -> TRUE
 
 Verdict == IF OfType(Recs[idx]) THEN TRUE ELSE PrintT("MISMATCH " \o ToString(Recs[idx].id))
 =============================================================================
